@@ -42,19 +42,19 @@ def run(ck):
     ck.rule("GUARD", "checked conversions and the deserializer reject exactly the values >= M of their own field, before any truncation")
     ck.rule("LAZY", "[0,2M) representation: raw equality/zero tests only on normalised values; as_int is normalised")
     ck.rule("CANON", "serialisation is canonical: as_int() when IS_CANONICAL is false, identity representation when true")
+    arith_ok = arith_rule(ck, prog)
     mg = MustGuards(prog)
     for fname, info in FIELDS.items():
         constants(ck, prog, fname, info)
         guards_rule(ck, prog, mg, fname, info)
         canon_rule(ck, prog, fname, info)
         if info["lazy"]:
-            lazy_rule(ck, prog, fname, info)
+            lazy_rule(ck, prog, fname, info, arith_ok)
     ck.rule("REPR", "representation range (f62: [0,2M); f64: canonical [0,M)): every BaseElement constructed by new/add/sub/mul/neg/double/mul_small/inv/"
                     "conversions stores a value in the range for all inputs (interval analysis with exact case splits and order facts; f64 assumes mont_red_*'s range)")
     from . import repr_range
     repr_range.run_rule(ck, prog, fields=("f62", "f64"))
     ck.control("an even number is not accepted as a proved prime", not numth.lucas_prime_proof(2**64 - 2**32 + 2))
-    arith_rule(ck, prog)
 
 
 # ---- carry / borrow logic of the linear operations (engine E5b) ---------------------------------------
@@ -78,6 +78,7 @@ def arith_rule(ck, prog):
     ck.rule("ARITH", "add/sub/neg/double (f62 also mul/square): the stored integer is congruent modulo p to the operation on the operands' "
                      "integers, on every carry/borrow case, for all operands in the representation range (exact linear forms, engine E5b)")
     n = 0
+    proven = set()
     for fname, info in FIELDS.items():
         mod = info["mod"]
         be = f"{mod}::BaseElement"
@@ -135,15 +136,17 @@ def arith_rule(ck, prog):
             for env, imprecise in outs:
                 r = env.get(0)
                 v = r[2][0] if isinstance(r, tuple) and r and r[0] == "adt" and r[2] else r
-                got = li.canon(lin_scale(v.lin, scale)) if isinstance(v, IV) and v.lin is not None else None
+                got = li.canon(lin_scale(v.lin, scale)) if isinstance(v, IV) and v.lin is not None and not v.weak else None
                 if got is None or imprecise:
                     unknown += 1
-                elif got != want:
+                elif got != want and not li.congruent(lin_scale(v.lin, scale), dict(want0), env.get("#facts")):
                     bad = bad or (got, (v.lo, v.hi))
             if not outs or (unknown and not bad):
                 ck.note(f"ARITH {key}: {unknown} of {len(outs)} paths left the linear domain; not decided")
                 continue
             n += 1
+            if bad is None:
+                proven.add(fn.id)
             for nn in li.inlined:
                 ck.analysed["functions"].add(nn)
             what = {"add": "a + b", "sub": "a - b", "neg": "-a", "double": "2a", "mul": "a*b (after multiplying the result by 2^64)",
@@ -161,6 +164,7 @@ def arith_rule(ck, prog):
     cs = li.wrap_cases("sub", IV({"a": 1}, 0, 2**64 - 2**32), IV({"b": 1}, 0, 2**64 - 2**32), "u64")
     ck.control("ARITH: a wrapping subtraction that can borrow yields two cases with different residues", len(cs) == 2 and li.canon(cs[0][0].lin) != li.canon(cs[1][0].lin))
     ck.floor("ARITH: operations decided", n, 16)
+    return proven
 
 
 # ---- constants -----------------------------------------------------------------------------------
@@ -369,7 +373,7 @@ def canon_rule(ck, prog, fname, info):
 
 # ---- lazy range ----------------------------------------------------------------------------------
 
-def lazy_rule(ck, prog, fname, info):
+def lazy_rule(ck, prog, fname, info, arith_ok=()):
     mod = info["mod"]
     be = f"{mod}::BaseElement"
     norm = prog.fn(f"{mod}::normalize")
@@ -392,6 +396,13 @@ def lazy_rule(ck, prog, fname, info):
                 computed = _is_computed(f, g, side, (b, i))
                 if raw and not computed:
                     n_tests += 1
+                    if f.id in arith_ok and norm.nname not in calls:
+                        # the branch is part of the reduction, not a zero test of the field element: ARITH proved that on BOTH of its
+                        # edges the function stores the right residue for every representation (0 and M included)
+                        ck.ob("LAZY", f"{fname}:{f.nname.split('::')[-1]}:eq-on-normalised", True,
+                              f"{fname}::{f.nname.split('::')[-1]}: a comparison of the raw representation with a constant selects between two "
+                              "reductions that ARITH proved congruent on every path", loc=f.loc(b, i))
+                        continue
                     ck.ob("LAZY", f"{fname}:{f.nname.split('::')[-1]}:eq-on-normalised", norm.nname in calls,
                           f"{fname}::{f.nname.split('::')[-1]}: an equality/zero test on a raw representation value uses the normalised value "
                           "(0 and M both represent zero)", loc=f.loc(b, i))
